@@ -2,6 +2,7 @@ package main
 
 import (
 	"fmt"
+	"go/token"
 	"go/types"
 	"reflect"
 	"strings"
@@ -309,6 +310,31 @@ func runC03(c *Ctx, r *Report, tier string) {
 		r.Check(tf, "TERMINATOR", pn, "the terminator never reaches non-option handling", c.ipos(in), "parseNonOption REQ(¬PassDoubleDash ∨ token ≠ \"--\")", "a `--` token can be handled as a non-option although PassDoubleDash is set")
 	}
 	r.Check(nPA == 1, "PASSAFTER", pn, "pass-after site", c.pos(pa.Pos()), "one", fmt.Sprintf("%d", nPA))
+	// the loop reads the parse state afresh: a command word switches parseState.command and parseState.lookup in the
+	// middle of the loop, so a value loaded from them before the loop and used inside it is stale
+	if loop != nil {
+		nFresh := 0
+		for lb := range loop.Blocks {
+			for _, in := range lb.Instrs {
+				for _, op := range in.Operands(nil) {
+					if op == nil || *op == nil {
+						continue
+					}
+					u, ok := (*op).(*ssa.UnOp)
+					if !ok || u.Op != token.MUL {
+						continue
+					}
+					at := c.term(u.X)
+					if !strings.Contains(at, "parseState.lookup(") && !strings.Contains(at, "parseState.command(") && !strings.Contains(at, "parseState.positional(") {
+						continue
+					}
+					nFresh++
+					r.Check(loop.Blocks[u.Block()], "PASSAFTER", pn, "parse state read afresh inside the argument loop", c.ipos(in), "the load of "+trunc(at, 60)+" happens in the loop", "a value loaded from "+trunc(at, 60)+" before the loop ("+c.ipos(u)+") is used inside it: after a command word it is the previous command's table")
+				}
+			}
+		}
+		r.Check(nFresh >= 1, "PASSAFTER", pn, "parse-state reads in the loop found", c.pos(pa.Pos()), "≥ 1", fmt.Sprintf("%d", nFresh))
+	}
 	// requeue
 	nRq := 0
 	for _, in := range c.instrs(pa, c.isCallTo("(*parseState).addArgs")) {
